@@ -82,3 +82,49 @@ Proof.
     cbn [fst map]. rewrite (IHx Hx). specialize (IHl Hl (pc + zlen (compile_e x))%Z ind). rewrite Er in IHl. cbn [fst] in IHl. rewrite IHl. reflexivity.
 Qed.
 Print Assumptions gen_js_is_pp.
+
+(* ---- the JavaScript tree can be read back: it denotes the source expression ---- *)
+Lemma binop_of_js o : binop_of (js_binop o) = Some o.
+Proof. destruct o; reflexivity. Qed.
+
+Lemma owners_not_global : forallb (fun p : string * string => negb (String.eqb (snd p) "_global")) VARIABLE_KNOWN_PROPERTIES = true.
+Proof. vm_compute. reflexivity. Qed.
+Lemma assoc_in (k : string) (t : list (string * string)) v : assoc_str k t = Some v -> In (k, v) t.
+Proof.
+  induction t as [|[k' v'] t IH]; simpl; [discriminate|].
+  destruct (String.eqb k k') eqn:E; intros H.
+  - injection H as <-. apply String.eqb_eq in E. subst. left. reflexivity.
+  - right. auto.
+Qed.
+
+Lemma all_some_map (f : expr -> nexpr) (g : expr -> js) l :
+  Forall (fun e => read_js (g e) = Some (f e)) l -> all_some_n (map read_js (map g l)) = Some (map f l).
+Proof. induction 1 as [|x l H _ IH]; simpl; [reflexivity|]. rewrite H, IH. reflexivity. Qed.
+
+Theorem read_to_js fm en : forall e, read_js (to_js fm en e) = Some (name_e fm en e).
+Proof.
+  apply (expr_ind2 (fun e => read_js (to_js fm en e) = Some (name_e fm en e))
+                   (fun l => Forall (fun e => read_js (to_js fm en e) = Some (name_e fm en e)) l)).
+  - reflexivity.
+  - intros k. cbn [to_js name_e]. destruct (nth k (e_consts en) (CInt 0)); reflexivity.
+  - reflexivity.
+  - intros i. cbn [to_js name_e]. unfold js_var. destruct (fm && String.eqb _ "me"); reflexivity.
+  - intros i. cbn [to_js name_e]. unfold js_var. destruct (fm && String.eqb _ "me"); reflexivity.
+  - reflexivity.
+  - intros n. cbn [to_js name_e]. unfold js_prop. cbn [read_js].
+    destruct (assoc_str (nm en n) VARIABLE_KNOWN_PROPERTIES) as [o|] eqn:E.
+    + pose proof (proj1 (forallb_forall _ _) owners_not_global _ (assoc_in _ _ _ E)) as H. cbn [snd] in H.
+      apply negb_true_iff in H. rewrite H. reflexivity.
+    + destruct fm; reflexivity.
+  - intros o x y Hx Hy. cbn [to_js name_e]. pose proof (binop_of_js o) as Hb.
+    destruct (js_binop o) eqn:Eo; cbn [read_js]; rewrite Hb, Hx, Hy; reflexivity.
+  - intros x Hx. cbn [to_js name_e read_js]. rewrite Hx. reflexivity.
+  - intros x Hx. cbn [to_js name_e read_js]. rewrite Hx. reflexivity.
+  - intros f l Hl. cbn [to_js name_e read_js]. rewrite (all_some_map (name_e fm en) (to_js fm en) l Hl). reflexivity.
+  - intros f l Hl. cbn [to_js name_e read_js]. rewrite (all_some_map (name_e fm en) (to_js fm en) l Hl). reflexivity.
+  - intros l Hl. cbn [to_js name_e read_js]. rewrite (all_some_map (name_e fm en) (to_js fm en) l Hl). reflexivity.
+  - intros l Hl. cbn [to_js name_e read_js]. rewrite (all_some_map (name_e fm en) (to_js fm en) l Hl). reflexivity.
+  - constructor.
+  - intros x l Hx Hl. constructor; assumption.
+Qed.
+Print Assumptions read_to_js.
